@@ -14,9 +14,9 @@ package hx
 // estimate of each percentile).  The driver checks them against the SPEC (`ValidTop`, monotone
 // and within [min,max]) and echoes them only when they satisfy it.
 //
-// The excluded inputs (duplicate aggregation names, histogram with no numeric value,
-// interval 0) kill or hang the process in the real code (C06/C07): they are never generated and
-// never executed here.
+// Nothing is excluded: duplicate aggregation names are refused by the compiler ("err":"compile"),
+// a histogram with no numeric value or with interval 0 returns no row (these used to kill or hang
+// the process: C06/C07 repairs; they are generated and compared since).
 
 import (
 	"encoding/json"
@@ -391,14 +391,15 @@ func c19Aggs(r *Run, names []string, rows []interface{}) []interface{} {
 		f := Pick(rng, c19Fields)
 		var a map[string]interface{}
 		k := rng.Intn(8)
-		if (k == 2 || k == 7) && len(histFields) == 0 {
-			k = 0
+		if (k == 2 || k == 7) && (len(histFields) == 0 || rng.Intn(5) == 0) {
+			// a histogram over a field without a numeric value (used to index an empty slice): no row
+			histFields = append(histFields, Pick(rng, []string{"nope", "_gid", "o", "x", "y"}))
 		}
 		switch k {
 		case 0, 1:
 			a = map[string]interface{}{"kind": "term", "field": f, "size": Pick(rng, []int{0, 0, 1, 2, 3, 5, 100})}
 		case 2, 7:
-			a = map[string]interface{}{"kind": "histogram", "field": Pick(rng, histFields), "interval": Pick(rng, []int{1, 2, 3, 5, 10, 100, 7})}
+			a = map[string]interface{}{"kind": "histogram", "field": Pick(rng, histFields), "interval": Pick(rng, []int{1, 2, 3, 5, 10, 100, 7, 1, 2, 0})}
 		case 3:
 			ps := []interface{}{}
 			for k := rng.Intn(5); k >= 0; k-- {
@@ -416,13 +417,22 @@ func c19Aggs(r *Run, names []string, rows []interface{}) []interface{} {
 			a = map[string]interface{}{"kind": "count"}
 		}
 		a["name"] = n
+		if a["kind"] == "histogram" && a["interval"] == 0 {
+			r.Count("aggs:histogram-interval-0")
+		}
 		out = append(out, a)
+	}
+	if len(out) > 1 && rng.Intn(25) == 0 {
+		// duplicate names: refused by the compiler (the second close of the name's channel used to
+		// kill the process)
+		out[len(out)-1].(map[string]interface{})["name"] = out[0].(map[string]interface{})["name"]
+		r.Count("aggs:duplicate-name")
 	}
 	return out
 }
 
-// cast.ToFloat64E succeeds on v (what the histogram keeps): used ONLY to keep the generator
-// away from the crash region "histogram with no numeric value" (C06); never part of an oracle.
+// cast.ToFloat64E succeeds on v (what the histogram keeps): used ONLY to steer the generator
+// towards fields with numeric values; never part of an oracle.
 func c19Numericish(v interface{}) bool {
 	switch x := v.(type) {
 	case float64, bool:
@@ -460,35 +470,6 @@ func c19Lookup(el map[string]interface{}, field string) interface{} {
 	return nil
 }
 
-// c19Safe: every histogram sees at least one value the cast accepts and names are unique.
-func c19Safe(op map[string]interface{}) bool {
-	rows, _ := op["rows"].([]interface{})
-	seen := map[string]bool{}
-	for _, a := range op["aggs"].([]interface{}) {
-		am := a.(map[string]interface{})
-		n := am["name"].(string)
-		if seen[n] {
-			return false
-		}
-		seen[n] = true
-		if am["kind"] == "histogram" {
-			if c19Num(am["interval"]) <= 0 {
-				return false
-			}
-			any := false
-			for _, r := range rows {
-				if c19Numericish(c19Lookup(r.(map[string]interface{}), am["field"].(string))) {
-					any = true
-				}
-			}
-			if !any {
-				return false
-			}
-		}
-	}
-	return true
-}
-
 func (s *c19State) run(r *Run, op map[string]interface{}) {
 	// the rows of the prefix decide whether a histogram is safe to run: compute them first
 	probe := map[string]interface{}{"op": "agg", "verts": op["verts"], "edges": op["edges"], "pre": op["pre"],
@@ -499,21 +480,8 @@ func (s *c19State) run(r *Run, op map[string]interface{}) {
 		r.Emit(op, map[string]interface{}{"err": "pre"})
 		return
 	}
-	if !c19Safe(op) {
-		r.Count("excluded:crash-region")
-		// drop the unsafe histograms rather than the whole case
-		kept := []interface{}{}
-		for _, a := range op["aggs"].([]interface{}) {
-			if a.(map[string]interface{})["kind"] != "histogram" {
-				kept = append(kept, a)
-			}
-		}
-		op["aggs"] = kept
-		if !c19Safe(op) {
-			r.Emit(op, map[string]interface{}{"skip": true})
-			return
-		}
-	}
+	// nothing is excluded any more: a histogram without a numeric value or with interval 0 yields
+	// no row, duplicate names are refused by the compiler (they used to crash or hang the process)
 	obs := s.exec(op)
 	r.Emit(op, obs)
 }
